@@ -312,7 +312,7 @@ func runC13(b *mon.B) {
 }
 
 func c13FullServer(b *mon.B, r *gen.R, caseNo int, w *c13World, ref *refsrv.Ref, ip net.IP, ai int, verdict string, want int) {
-	ref.Net.KeepLog = true
+	ref.Net.SetKeepLog(true)
 	t0 := ref.Net.Now()
 	c := ref.L.Dial(&net.TCPAddr{IP: ip, Port: 2000 + ai})
 	defer func() {
